@@ -155,15 +155,17 @@ def axis_total(st, a, axis):
     return Arr((nrows,), lambda i: P(to_z3(i, "int"), ncols - 1), "real", prov=("axissum", a, axis))
 
 
-def cong2_rule(st, a, b, axis=1):
-    """Row-wise L-SUM-cong for 2-d arrays (premise for fresh (i, j), conclusion forall rows)."""
-    Pa, Pb = prefix2_fn(st, a, axis), prefix2_fn(st, b, axis)
+def cong2_rule(st, a, b, axis=1, axis_b=None):
+    """Row-wise L-SUM-cong for 2-d arrays (premise for fresh (i, j), conclusion forall rows).  axis_b != axis compares the
+    sums of a along `axis` with the sums of b along `axis_b` (e.g. row sums of a transpose with column sums of the array)."""
+    axis_b = axis if axis_b is None else axis_b
+    Pa, Pb = prefix2_fn(st, a, axis), prefix2_fn(st, b, axis_b)
     nr = to_z3(a.shape[0] if axis == 1 else a.shape[1], "int")
     nc = to_z3(a.shape[1] if axis == 1 else a.shape[0], "int")
-    nrb = to_z3(b.shape[0] if axis == 1 else b.shape[1], "int")
-    ncb = to_z3(b.shape[1] if axis == 1 else b.shape[0], "int")
+    nrb = to_z3(b.shape[0] if axis_b == 1 else b.shape[1], "int")
+    ncb = to_z3(b.shape[1] if axis_b == 1 else b.shape[0], "int")
     ela = (lambda i, j: a.at(i, j)) if axis == 1 else (lambda i, j: a.at(j, i))
-    elb = (lambda i, j: b.at(i, j)) if axis == 1 else (lambda i, j: b.at(j, i))
+    elb = (lambda i, j: b.at(i, j)) if axis_b == 1 else (lambda i, j: b.at(j, i))
     i, j = z3.Int(fresh_name("ic")), z3.Int(fresh_name("jc"))
     premise = z3.And(nr == nrb, nc == ncb,
                      z3.Implies(z3.And(i >= 0, i < nr, j >= 0, j < nc),
@@ -190,4 +192,111 @@ def pos2_rule(st, a, axis=1):
     i, j, r = z3.Int(fresh_name("ip")), z3.Int(fresh_name("jp")), z3.Int(fresh_name("rp"))
     prem = z3.And(nc >= 1, z3.Implies(z3.And(i >= 0, i < nr, j >= 0, j < nc), to_z3(el(i, j), "real") > 0))
     concl = z3.ForAll([r], z3.Implies(z3.And(r >= 0, r < nr), P(r, nc - 1) > 0), patterns=[P(r, nc - 1)])
+    return prem, concl
+
+
+# ----------------------------------------------------------------------------- matrix products (np.dot of 2-d arrays)
+def dot_fn(st, A, B):
+    """P3(a, b, m) = sum_{i<=m} A(a, i) * B(i, b); np.dot(A, B)[a, b] = P3(a, b, n-1).  Definitional axioms only."""
+    key = ("P3", A.uid, B.uid)
+    if key in st.ghost:
+        return st.ghost[key]
+    P = z3.Function(fresh_name("P3"), z3.IntSort(), z3.IntSort(), z3.IntSort(), z3.RealSort())
+    p, n, q = to_z3(A.shape[0], "int"), to_z3(A.shape[1], "int"), to_z3(B.shape[1], "int")
+    a, b, m = z3.Int(fresh_name("a")), z3.Int(fresh_name("b")), z3.Int(fresh_name("m"))
+    st.assume(z3.ForAll([a, b], P(a, b, -1) == 0, patterns=[P(a, b, -1)]))
+    st.assume(z3.ForAll([a, b, m], z3.Implies(z3.And(a >= 0, a < p, b >= 0, b < q, m >= 0, m < n),
+                                              P(a, b, m) == P(a, b, m - 1) + to_z3(A.at(a, m), "real") * to_z3(B.at(m, b), "real")),
+                        patterns=[P(a, b, m)]))
+    st.ghost[key] = P
+    st.ghost["dots"] = st.ghost.get("dots", []) + [(A, B, P)]
+    return P
+
+
+def dot(st, A, B):
+    P = dot_fn(st, A, B)
+    n = to_z3(A.shape[1], "int")
+    return Arr((A.shape[0], B.shape[1]), lambda a, b: P(to_z3(a, "int"), to_z3(b, "int"), n - 1), "real", prov=("dot", A, B))
+
+
+def dot_cong_rule(st, A1, B1, A2, B2, imap=None):
+    """L-SUM-cong for matrix products: if the summands of (A1.B1)[a,b] and (A2.B2)[imap(a,b)] agree for every i (premise, checked
+    for fresh a, b, i) then the two products agree entry-wise (conclusion).  imap defaults to the identity; imap = swap gives symmetry."""
+    P1, P2 = dot_fn(st, A1, B1), dot_fn(st, A2, B2)
+    imap = imap or (lambda a, b: (a, b))
+    p, n, q = to_z3(A1.shape[0], "int"), to_z3(A1.shape[1], "int"), to_z3(B1.shape[1], "int")
+    a, b, i = z3.Int(fresh_name("ac")), z3.Int(fresh_name("bc")), z3.Int(fresh_name("ic"))
+    a2, b2 = imap(a, b)
+    prem = z3.And(to_z3(A2.shape[1], "int") == n,
+                  z3.Implies(z3.And(a >= 0, a < p, b >= 0, b < q, i >= 0, i < n),
+                             z3.And(a2 >= 0, a2 < to_z3(A2.shape[0], "int"), b2 >= 0, b2 < to_z3(B2.shape[1], "int"),
+                                    to_z3(A1.at(a, i), "real") * to_z3(B1.at(i, b), "real") ==
+                                    to_z3(A2.at(a2, i), "real") * to_z3(B2.at(i, b2), "real"))))
+    x, y, m = z3.Int(fresh_name("x")), z3.Int(fresh_name("y")), z3.Int(fresh_name("m"))
+    x2, y2 = imap(x, y)
+    concl = z3.ForAll([x, y, m], z3.Implies(z3.And(x >= 0, x < p, y >= 0, y < q, m >= -1, m < n), P1(x, y, m) == P2(x2, y2, m)),
+                      patterns=[P1(x, y, m)])
+    return prem, concl
+
+
+def dot_nonneg_rule(st, A, B, diag_only=False):
+    """summands >= 0 (premise, fresh a, b, i; with diag_only only for a == b) => entries >= 0."""
+    P = dot_fn(st, A, B)
+    p, n, q = to_z3(A.shape[0], "int"), to_z3(A.shape[1], "int"), to_z3(B.shape[1], "int")
+    a, b, i = z3.Int(fresh_name("an")), z3.Int(fresh_name("bn")), z3.Int(fresh_name("in"))
+    rng = z3.And(a >= 0, a < p, b >= 0, b < q, i >= 0, i < n)
+    if diag_only:
+        rng = z3.And(rng, a == b)
+    prem = z3.Implies(rng, to_z3(A.at(a, i), "real") * to_z3(B.at(i, b), "real") >= 0)
+    x, y, m = z3.Int(fresh_name("x")), z3.Int(fresh_name("y")), z3.Int(fresh_name("m"))
+    rng2 = z3.And(x >= 0, x < p, y >= 0, y < q, m >= -1, m < n)
+    if diag_only:
+        rng2 = z3.And(rng2, x == y)
+    return prem, z3.ForAll([x, y, m], z3.Implies(rng2, P(x, y, m) >= 0), patterns=[P(x, y, m)])
+
+
+def dot_bound_rule(st, A, B, lo, hi):
+    """weighted-average bound: A(a,i) >= 0 and lo(b) <= B(i,b) <= hi(b) for all i (premise) =>
+    lo(b) * rowsum_A(a) <= (A.B)[a,b] <= hi(b) * rowsum_A(a)  (conclusion; induction on the summation index)."""
+    P = dot_fn(st, A, B)
+    R = prefix2_fn(st, A, 1)
+    p, n, q = to_z3(A.shape[0], "int"), to_z3(A.shape[1], "int"), to_z3(B.shape[1], "int")
+    a, b, i = z3.Int(fresh_name("ab")), z3.Int(fresh_name("bb")), z3.Int(fresh_name("ib"))
+    prem = z3.Implies(z3.And(a >= 0, a < p, b >= 0, b < q, i >= 0, i < n),
+                      z3.And(to_z3(A.at(a, i), "real") >= 0, lo(b) <= to_z3(B.at(i, b), "real"), to_z3(B.at(i, b), "real") <= hi(b)))
+    x, y = z3.Int(fresh_name("x")), z3.Int(fresh_name("y"))
+    concl = z3.ForAll([x, y], z3.Implies(z3.And(x >= 0, x < p, y >= 0, y < q),
+                                         z3.And(lo(y) * R(x, n - 1) <= P(x, y, n - 1), P(x, y, n - 1) <= hi(y) * R(x, n - 1))),
+                      patterns=[P(x, y, n - 1)])
+    return prem, concl
+
+
+def nonneg2_rule(st, a, axis=1):
+    """entries >= 0 (fresh i, j) => every partial row/column sum >= 0 and monotone."""
+    P = prefix2_fn(st, a, axis)
+    nr = to_z3(a.shape[0] if axis == 1 else a.shape[1], "int")
+    nc = to_z3(a.shape[1] if axis == 1 else a.shape[0], "int")
+    el = (lambda i, j: a.at(i, j)) if axis == 1 else (lambda i, j: a.at(j, i))
+    i, j = z3.Int(fresh_name("in2")), z3.Int(fresh_name("jn2"))
+    prem = z3.Implies(z3.And(i >= 0, i < nr, j >= 0, j < nc), to_z3(el(i, j), "real") >= 0)
+    r, m = z3.Int(fresh_name("r")), z3.Int(fresh_name("m"))
+    concl = z3.ForAll([r, m], z3.Implies(z3.And(r >= 0, r < nr, m >= -1, m < nc), P(r, m) >= 0), patterns=[P(r, m)])
+    return prem, concl
+
+
+def total_of_totals(st, a, axis):
+    """sum over all entries both ways: sum_r rowsum(r) = sum_c colsum(c)  (finite Fubini; lemma L-SUM-fubini)."""
+    rows = axis_total(st, a, 1)
+    cols = axis_total(st, a, 0)
+    return total(st, rows) == total(st, cols)
+
+
+def elem_le_rowsum_rule(st, a):
+    """entries >= 0 (premise, fresh i, j) => every entry is at most its row sum (conclusion; induction on the column index)."""
+    P = prefix2_fn(st, a, 1)
+    nr, nc = to_z3(a.shape[0], "int"), to_z3(a.shape[1], "int")
+    i, j = z3.Int(fresh_name("ie")), z3.Int(fresh_name("je"))
+    prem = z3.Implies(z3.And(i >= 0, i < nr, j >= 0, j < nc), to_z3(a.at(i, j), "real") >= 0)
+    r, c = z3.Int(fresh_name("r")), z3.Int(fresh_name("c"))
+    concl = z3.ForAll([r, c], z3.Implies(z3.And(r >= 0, r < nr, c >= 0, c < nc), to_z3(a.at(r, c), "real") <= P(r, nc - 1)))
     return prem, concl
